@@ -23,6 +23,9 @@ CORPUS = [
     ("unary-sugar", "int f(int x,int y){ x = y++; y = -x; x++; --y; x = !y; y = sizeof(x); +x; }"),
     ("dowhile", "int f(int x,int y){ do { x = x * y; } while (x < y); }"),
     ("rotation-4", "int f(int c0,int c1,int c2,int t){ while (t > 0) { t = c2; c2 = c1; c1 = c0; c0 = t + t; } }"),
+    ("reserved-names", "int f(int found, int x){ found = true; while (x > 0) { x = x + found; found = false; } }"),
+    ("reserved-names-finite", "int f(int found, int x, int y){ found = false; x = y + found; if (x > y) { found = true; } }"),
+    ("duplicate-declarations", "int f(int x, int y){ if (x > 0) { int t; y = x + y; } else { int t; y = x; } int x; }"),
     ("backward-chain-for", "int f(int a,int b,int c,int d,int t,int i,int n){ for (i = 0; i < n; i++) { if (t > 0) { d = c * a; } else { d = b; } if (t > 1) { c = b + b; } else { c = a; } b = a + a; } }"),
 ]
 
